@@ -103,6 +103,7 @@ func (c kvClient) StoreDiff(ctx context.Context, in *spacesyncproto.StoreDiffReq
 type dres struct {
 	nw, ch, tch, rm []int
 	err             string
+	raw             string // the four lists in the order reported
 }
 
 func ints(l []int) string {
@@ -208,6 +209,14 @@ func runDiff(w *world, variant string, a, b real.Diff) (dres, int) {
 				break
 			}
 		}
+		rawl := func(ids []string) string {
+			l := make([]int, 0, len(ids))
+			for _, id := range ids {
+				l = append(l, w.idx[id])
+			}
+			return ints(l)
+		}
+		d.raw = fmt.Sprintf("new=%s changed=%s their=%s removed=%s", rawl(nw), rawl(ch), rawl(tch), rawl(rm))
 	}
 	return d, cr.rounds
 }
@@ -537,11 +546,12 @@ func caseC08(r *corr.Run, m *modelSession, w *world, df, thr int, ops []hop, eve
 	var before []contents
 	lines := []string{fmt.Sprintf("new x %d %d", df, thr)}
 	m.begin(w)
-	m.op(lines[0], "C08", lines)
+	m.op(lines[0], "C08", lines, x, false)
 	failed := false
 	for i, h := range ops {
 		before = append(before, c.clone())
 		_, had := c[h.id]
+		had = had && h.kind == "rm"
 		lines = append(lines, w.line("x", h))
 		if msg := w.apply(x, c, h); msg != "" {
 			r.Violate("C08", "", "ldiff.history.op", msg+"; "+describeWorld(w), lines)
@@ -550,6 +560,7 @@ func caseC08(r *corr.Run, m *modelSession, w *world, df, thr int, ops []hop, eve
 		}
 		switch {
 		case h.kind == "rm" && had:
+			_ = had
 			r.Count("c08.op.remove-present")
 		case h.kind == "rm":
 			r.Count("c08.op.remove-absent")
@@ -562,7 +573,7 @@ func caseC08(r *corr.Run, m *modelSession, w *world, df, thr int, ops []hop, eve
 				r.Count("c08.op.set-new")
 			}
 		}
-		m.op(lines[len(lines)-1], "C08", lines)
+		m.op(lines[len(lines)-1], "C08", lines, x, h.kind == "rm" && !had)
 		if (i+1)%every == 0 || i == len(ops)-1 {
 			y, perr := w.fresh(df, thr, c, nil)
 			if perr != "" {
@@ -575,7 +586,9 @@ func caseC08(r *corr.Run, m *modelSession, w *world, df, thr int, ops []hop, eve
 				failed = true
 				break
 			}
-			m.observe(x, "x", df, thr, "C08", lines)
+			if i == len(ops)-1 || r.Chance(35) {
+				m.observe(x, "x", df, thr, "C08", lines)
+			}
 		}
 	}
 	if len(ops) == 0 {
@@ -636,23 +649,28 @@ func caseC07(r *corr.Run, m *modelSession, w *world, df, thr int, opsA, opsB []h
 	A, B := contents{}, contents{}
 	lines := []string{fmt.Sprintf("new a %d %d", df, thr), fmt.Sprintf("new b %d %d", df, thr)}
 	m.begin(w)
-	m.op(lines[0], "C07", lines)
-	m.op(lines[1], "C07", lines)
+	m.op(lines[0], "C07", lines, a, false)
+	m.op(lines[1], "C07", lines, b, false)
 	for _, h := range opsA {
 		lines = append(lines, w.line("a", h))
+		_, had := A[h.id]
 		if msg := w.apply(a, A, h); msg != "" {
 			r.Violate("C07", "", "ldiff.diff.build", msg, lines)
 			return
 		}
-		m.op(lines[len(lines)-1], "C07", lines)
+		m.op(lines[len(lines)-1], "C07", lines, a, h.kind == "rm" && !had)
 	}
 	for _, h := range opsB {
 		lines = append(lines, w.line("b", h))
+		_, had := B[h.id]
 		if msg := w.apply(b, B, h); msg != "" {
 			r.Violate("C07", "", "ldiff.diff.build", msg, lines)
 			return
 		}
-		m.op(lines[len(lines)-1], "C07", lines)
+		m.op(lines[len(lines)-1], "C07", lines, b, h.kind == "rm" && !had)
+	}
+	if r.Chance(15) {
+		m.observe(b, "b", df, thr, "C07", lines)
 	}
 	for _, v := range vs {
 		got, rounds := runDiff(w, v, a, b)
